@@ -14,9 +14,9 @@
 //!
 //! Isolation: sessions run in child processes (`worker`), several per child.  In the child every session
 //! runs under `vcore::guarded` (panic -> outcome "panic" + location), a capping global allocator (a
-//! request that would take the session beyond 128 MiB + 64 x input size is refused and recorded ->
-//! outcome "alloc"), an address-space limit (backstop for C codec libraries) and a watchdog thread (5 s of
-//! CPU or 60 s wall clock -> outcome "hang", the child exits).  The parent restarts a dead child after the
+//! request that would take the session beyond 16 MiB + 64 x input size is refused and recorded ->
+//! outcome "alloc"), an address-space limit (backstop for C codec libraries) and a watchdog thread (8 s of
+//! CPU or 90 s wall clock -> outcome "hang", the child exits).  The parent restarts a dead child after the
 //! session that killed it and records that session's outcome from the markers the child left
 //! (`crash` when there is none: abort / stack overflow / signal).
 mod alloc;
@@ -46,7 +46,7 @@ fn msg_head(m: &str) -> String {
 }
 
 const WORKERS: usize = 12;
-const ALLOC_BASE: usize = 128 << 20;
+const ALLOC_BASE: usize = 16 << 20;
 
 #[derive(Clone)]
 enum Sess {
@@ -239,16 +239,6 @@ fn guarded_at<T>(f: impl FnOnce() -> T) -> Result<T, (String, String)> {
     vcore::guarded(f).map_err(|msg| (format!("{}@{}", msg_head(&msg), PANIC_FN.lock().unwrap()), PANIC_AT.lock().unwrap().clone()))
 }
 
-/// `crate::module` of a symbol name (`<a::b::T as ..>::f` -> `a::b`)
-fn fn_module(f: &str) -> String {
-    let f = f.trim_start_matches('<');
-    let mut it = f.split("::");
-    match (it.next(), it.next()) {
-        (Some(a), Some(b)) if !a.is_empty() => format!("{a}::{b}"),
-        _ => String::new(),
-    }
-}
-
 fn file_of(at: &str) -> &str {
     at.rsplit_once(':').map(|x| x.0).unwrap_or(at)
 }
@@ -292,7 +282,7 @@ fn finish_event(mut ev: Value, outcome: &str, wher: &str, msg: &str, o: Option<&
     let (head, func) = msg.split_once('@').unwrap_or((msg, ""));
     m.insert("msg".into(), json!(head));
     m.insert("fn".into(), json!(func));
-    m.insert("fmod".into(), json!(fn_module(func)));
+    m.insert("fmod".into(), json!(alloc::fn_module(func)));
     let none: Vec<Value> = vec![];
     match o {
         Some(o) => {
@@ -411,6 +401,54 @@ fn sessions_for(c: &Ctx, mode: &str, cases: Option<&String>) -> Vec<Sess> {
     }
 }
 
+/// the session list is computed once by the supervising process and handed to the workers as a text file
+/// (a worker is restarted after every session that kills it: its start-up must be cheap)
+fn write_sessions(path: &str, sessions: &[Sess]) {
+    let hex = |b: &[u8]| b.iter().map(|x| format!("{x:02x}")).collect::<String>();
+    let dash = |s: &str| if s.is_empty() { "-".to_string() } else { s.to_string() };
+    let mut o = String::new();
+    for s in sessions {
+        match s {
+            Sess::File { file, api, plan: p } => {
+                o.push_str(&format!("F {file} {api} {} {} {} {} {} {} {} {} {}\n", p.src, p.op, dash(p.arg), dash(p.sel), p.d, p.fix as u8, p.r, p.pos, p.donor));
+            }
+            Sess::VarValue { name, src, meta, value } => o.push_str(&format!("V {name} {src} {} {}.\n", hex(meta), hex(value))),
+            Sess::VarMeta { name, src, meta } => o.push_str(&format!("M {name} {src} {}.\n", hex(meta))),
+        }
+    }
+    std::fs::write(path, o).expect("write sessions");
+}
+
+fn read_sessions(path: &str) -> Vec<Sess> {
+    let unhex = |s: &str| -> Vec<u8> { let s = s.trim_end_matches('.'); (0..s.len() / 2).map(|i| u8::from_str_radix(&s[2 * i..2 * i + 2], 16).unwrap()).collect() };
+    let undash = |s: &str| plan::intern(if s == "-" { "" } else { s });
+    let text = std::fs::read_to_string(path).expect("sessions file");
+    let mut out = Vec::new();
+    for l in text.lines() {
+        let f: Vec<&str> = l.split(' ').collect();
+        match f[0] {
+            "F" => out.push(Sess::File {
+                file: f[1].parse().unwrap(),
+                api: plan::intern(f[2]),
+                plan: Plan {
+                    src: plan::intern(f[3]),
+                    op: plan::intern(f[4]),
+                    arg: undash(f[5]),
+                    sel: undash(f[6]),
+                    d: f[7].parse().unwrap(),
+                    fix: f[8] == "1",
+                    r: f[9].parse().unwrap(),
+                    pos: f[10].parse().unwrap(),
+                    donor: f[11].parse().unwrap(),
+                },
+            }),
+            "V" => out.push(Sess::VarValue { name: f[1].to_string(), src: plan::intern(f[2]), meta: unhex(f[3]), value: unhex(f[4]) }),
+            _ => out.push(Sess::VarMeta { name: f[1].to_string(), src: plan::intern(f[2]), meta: unhex(f[3]) }),
+        }
+    }
+    out
+}
+
 fn shard_path(out: &str, mode: &str, i: usize) -> String {
     format!("{out}/untrusted-{mode}-{i:02}.ndjson")
 }
@@ -420,12 +458,12 @@ fn worker(args: &Args) {
     let w: usize = args.extra[1].parse().unwrap();
     let from: usize = args.extra[2].parse().unwrap();
     let c = ctx(args);
-    let sessions = sessions_for(&c, &mode, args.cases.as_ref());
+    let sessions = read_sessions(&format!("{}/sessions-{mode}.txt", args.out));
     let prog = std::fs::OpenOptions::new().create(true).append(true).open(format!("{}/prog-{mode}-{w}.txt", args.out)).unwrap();
     use std::os::fd::AsRawFd;
     alloc::MARK_FD.store(prog.as_raw_fd(), std::sync::atomic::Ordering::Relaxed);
     alloc::cap_address_space(6 << 30);
-    alloc::start_watchdog(5, 60);
+    alloc::start_watchdog(8, 90);
     let mut shard = std::fs::OpenOptions::new().create(true).append(true).open(shard_path(&args.out, &mode, w)).unwrap();
     // sessions are grouped by (file, api): at the start of its share of a group the worker runs the
     // uncorrupted session itself and records it (src = "base"); batches of the following sessions that are
@@ -465,6 +503,7 @@ fn supervise(args: &Args, mode: &str) {
     let sessions = sessions_for(&c, mode, args.cases.as_ref());
     let exe = std::env::current_exe().unwrap();
     std::fs::create_dir_all(&args.out).unwrap();
+    write_sessions(&format!("{}/sessions-{mode}.txt", args.out), &sessions);
     for w in 0..WORKERS {
         let _ = std::fs::remove_file(shard_path(&args.out, mode, w));
         let _ = std::fs::remove_file(format!("{}/prog-{mode}-{w}.txt", args.out));
@@ -561,6 +600,7 @@ fn supervise(args: &Args, mode: &str) {
         }
         let _ = std::fs::remove_file(format!("{}/prog-{mode}-{w}.txt", args.out));
     }
+    let _ = std::fs::remove_file(format!("{}/sessions-{mode}.txt", args.out));
     if mode == "gen" {
         println!("REPLAYED {events}");
     }
@@ -577,7 +617,8 @@ fn shapes(args: &Args) {
     let mut nf = 0;
     let mut nr = 0;
     for (fi, b) in c.files.iter().enumerate() {
-        if !(c.thorough || b.gen_quick) || b.regions.is_empty() {
+        let typed = b.name.starts_with('t') && b.name[1..].chars().all(|c| c.is_ascii_digit());
+        if !((c.thorough && !typed) || b.gen_quick) || b.regions.is_empty() {
             continue;
         }
         let regs: Vec<Value> = b.regions.iter().map(|r| json!({"k": r.kind, "g": r.grp, "w": r.hi - r.lo, "e": r.encl})).collect();
@@ -650,7 +691,9 @@ fn main() {
         if let Ok(mut g) = PANIC_FN.try_lock() {
             // symbolising the stack is the harness's time, not the reader's
             let (c0, w0) = (alloc::cpu_ns(), alloc::wall_ms());
+            let saved = alloc::suspend();
             *g = frame_cached();
+            alloc::resume(saved);
             alloc::CPU0.fetch_add(alloc::cpu_ns().saturating_sub(c0), std::sync::atomic::Ordering::Relaxed);
             alloc::WALL0.fetch_add(alloc::wall_ms().saturating_sub(w0), std::sync::atomic::Ordering::Relaxed);
         }
